@@ -16,6 +16,11 @@ def json_to_py(j):
             return float(j['a'][6:])
         if 'app' in j and j['app'][0] == '$list':
             return [json_to_py(x) for x in j['app'][1]]
+        if 'app' in j and j['app'][0] == '$path':
+            import pathlib
+            return pathlib.PurePosixPath(j['app'][1][0])
+        if 'app' in j and j['app'][0] == '$bytes':
+            return j['app'][1][0].encode('latin1')
         raise ValueError(j)
     return j
 
